@@ -180,7 +180,8 @@ def key_of_diag(x):
 
 def eval_case(arg):
     """Baseline + variants for one program. Returns a dict of observations (JSON-able)."""
-    name, files, flags, vseed, nvariants = arg
+    name, files, flags, vseed, nvariants = arg[:5]
+    force = arg[5] if len(arg) > 5 else None  # a witness replay may name the one variant it is about
     res = {"name": name, "files": files, "flags": flags, "variants": []}
     out, err, st, rec = run_mypy(files, flags, observe=True)
     ds, rest = diag.parse(out)
@@ -218,6 +219,8 @@ def eval_case(arg):
     codes_present = sorted({x.code for x in ds if x.code})
     for v in range(nvariants):
         kind = rnd.choice(["ignore", "ignore", "ignore", "disable", "ignore+unused"]) if err_lines else "disable"
+        if force:
+            kind = force["kind"]
         var = {"kind": kind}
         if kind.startswith("ignore"):
             k = rnd.randint(1, min(4, len(err_lines)))
@@ -263,7 +266,7 @@ def eval_case(arg):
             if not codes_present:
                 continue
             subs = [c for c in codes_present if c in pm]
-            if subs and rnd.random() < 0.5:
+            if subs and rnd.random() < 0.5 and not force:
                 # disable the parent code but explicitly enable one of its sub-codes: enable overrides disable
                 sub = rnd.choice(subs)
                 var["kind"] = "disable-parent-enable-sub"
@@ -277,6 +280,8 @@ def eval_case(arg):
                 res["variants"].append(var)
                 continue
             c = rnd.choice(codes_present)
+            if force and force.get("code"):
+                c = force["code"]
             var["code"] = c
             var["flags"] = list(flags) + ["--disable-error-code", c]
             vfiles = dict(files)
@@ -588,7 +593,9 @@ def replay(run: Run, case: dict, origin: str | None = None) -> bool:
     before = len(run.violations)
     # replays re-run the stored program with a fixed variant seed set
     for vs in (1, 2, 3):
-        judge(run, eval_case(("replay", case["files"], case.get("flags", []), vs, 4)))
+        judge(run, eval_case(("replay", case["files"], case.get("flags", []), vs, 4) + ((case["force"],) if case.get("force") else ())))
+        if case.get("force"):
+            break
     return len(run.violations) == before
 
 
